@@ -281,6 +281,24 @@ def post_process(prop, tier, seed, steps, monitors_out, helpers):
         if not helpers.only or helpers.only == "nostd":
             nostd_check(helpers, out)
         return out
+    if prop == "C01":
+        # oracle-vs-oracle: the Rust reference model against the independent Python model
+        import subprocess
+        out = {"violations": [], "inconclusive": [], "evaluations": 0, "coverage": {}}
+        if helpers.native_probe and not helpers.only:
+            dump = os.path.join(helpers.BUILD, "runs", "model-dump-%s.txt" % tier)
+            n = 40 if tier == "quick" else 600
+            try:
+                subprocess.run(helpers.native_probe + ["model-dump", "--seed", str(seed), "--param", "n=%d" % n, "--out", dump], check=True, timeout=3600)
+                r = subprocess.run([sys.executable, os.path.join(helpers.ROOT, "oracle-py", "ref.py"), "check", dump],
+                                   stdout=subprocess.PIPE, stderr=subprocess.STDOUT, text=True, timeout=7200)
+                last = r.stdout.strip().splitlines()[-1] if r.stdout.strip() else ""
+                out["coverage"]["oracle_vs_oracle"] = last
+                if r.returncode != 0:
+                    out["inconclusive"].append("the Rust and the Python reference models disagree (verdict withheld): %s" % r.stdout.strip()[:600])
+            except Exception as e:  # noqa
+                out["inconclusive"].append("oracle-vs-oracle cross-check could not run: %s" % e)
+        return out
     if prop not in ("C07", "C17"):
         return None
     out = {"violations": [], "inconclusive": [], "evaluations": 0, "coverage": {}}
